@@ -7,7 +7,7 @@ import ast
 from fractions import Fraction
 
 from .program import AnalysisIncomplete, Ext, Func, Partial, norm
-from .sym import _akey, App, Poly, Rat, Sym
+from .sym import _akey, App, Poly, Rat, Sym, subst
 
 # canonical names of elementwise scalar functions
 UFUNCS = {
@@ -603,6 +603,22 @@ class Interp:
             left = right
         return conds[0] if len(conds) == 1 else ('and',) + tuple(conds)
 
+    def index_cond(self, c, j):
+        def f(a):
+            if isinstance(a, App) and a.name == 'arr' and a.args and a.args[0] in self.k.arrays:
+                return self.read(self.k.arrays[a.args[0]], (j,))
+            return None
+        if c[0] == 'cmp':
+            d = subst(c[3] if len(c) > 3 else c[2], f)
+            return cmp_cond(c[1], d, Rat.const(0))
+        if c[0] in ('and', 'or'):
+            return (c[0],) + tuple(self.index_cond(x, j) for x in c[1:])
+        if c[0] == 'not':
+            return neg_cond(self.index_cond(c[1], j))
+        if c[0] == 'truth':
+            return ('truth', subst(c[1], f)) if isinstance(c[1], Rat) else c
+        return c
+
     def ev_BoolOp(self, e):
         cs = [self.cond_of(self.ev(v), e) for v in e.values]
         return ('and' if isinstance(e.op, ast.And) else 'or',) + tuple(cs)
@@ -657,6 +673,11 @@ class Interp:
                 return self.read(base.arr, tuple(ax[1] for ax in axes))
             return View(base.arr, axes)
         if arr is None:
+            if isinstance(base, tuple) and base and base[0] in ('cmp', 'and', 'or', 'not', 'truth') and \
+                    not isinstance(e.slice, (ast.Slice, ast.Tuple)):
+                # element j of an element-wise condition over arrays: the same condition on the arrays' elements at j
+                j = self.as_scalar(self.ev(e.slice), e)
+                return self.index_cond(base, j)
             if isinstance(base, Rat):
                 ra = self.row_alias(base)
                 if ra is not None:
